@@ -638,6 +638,127 @@ pub fn check_history(c: &(Vec<u8>, Vec<u8>)) -> CheckResult {
     vensure!(again == ec, format!("category-second-call:{}:{}", wc, again), "cards {}: second hand_type() call reports {}", cnames(&cur), again);
     Ok(Outcome::new(true, fp_of(&(set_fp(&prev), set_fp(&cur))), 1u64 << t.cat_of_class(wc) | if t.cat_of_class(wp) != t.cat_of_class(wc) { 1 << 9 } else { 0 }))
 }
+/// Long call histories on one thread: forty hands a_0..a_39 are evaluated, then `fillers` other
+/// hands, then for j = 0..39 a hand b_j related to a_j (a_j's cards in reverse order / one card
+/// replaced / suits rotated / unrelated / the same ranks in flush-free suits), each once - all
+/// forty related pairs are fillers + 40 calls apart, and the generator puts that distance at 256,
+/// 65,536 or 2^24, plus or minus at most 2.  (Asking the same b repeatedly would not do: the first
+/// answer refreshes whatever a cache holds.)
+#[derive(Clone, Debug, Serialize, Deserialize)]
+pub struct LongHistory {
+    pub hands: Vec<(Vec<u8>, u8)>,
+    pub fillers: u32,
+}
+
+pub fn related_hand(a: &[Cid; 7], variant: u8) -> [Cid; 7] {
+    let mut b = *a;
+    match variant % 5 {
+        0 => b.reverse(),
+        1 => {
+            let mut c = (a[6] + 1 + variant / 4) % 52;
+            while a.contains(&c) {
+                c = (c + 1) % 52;
+            }
+            b[(variant / 4) as usize % 7] = c;
+        }
+        2 => {
+            for x in b.iter_mut() {
+                *x = (*x & !3) | ((*x & 3) + 1 + variant / 4 % 3) % 4;
+            }
+        }
+        3 => {
+            for (i, x) in b.iter_mut().enumerate() {
+                *x = (a[i] + 13 + variant / 4) % 52;
+            }
+        }
+        _ => {
+            // the same ranks with suits dealt afresh so that no suit has five cards
+            let mut sorted = *a;
+            sorted.sort_unstable();
+            let mut ordinal = 0u8;
+            let mut same = 0u8;
+            for i in 0..7 {
+                if i > 0 && sorted[i] / 4 == sorted[i - 1] / 4 {
+                    same += 1;
+                } else {
+                    if i > 0 {
+                        ordinal += 1;
+                    }
+                    same = 0;
+                }
+                b[i] = (sorted[i] & !3) | (ordinal + same + variant / 5) % 4;
+            }
+        }
+    }
+    b
+}
+
+pub fn check_long_history(mode: Mode) -> impl Fn(&LongHistory) -> CheckResult {
+    move |c: &LongHistory| {
+        vensure!(!c.hands.is_empty() && c.hands.len() <= 64 && c.fillers <= 20_000_000, "bad-case", "history outside the domain");
+        let t = table();
+        let mut firsts: Vec<[Cid; 7]> = vec![];
+        for (h, _) in &c.hands {
+            vensure!(h.len() == 7, "bad-case", "need 7 cards");
+            let a: [Cid; 7] = h.clone().try_into().unwrap();
+            let mut seen = 0u64;
+            for x in a {
+                vensure!(x < 52 && seen >> x & 1 == 0, "bad-case", "cards not distinct");
+                seen |= 1 << x;
+            }
+            firsts.push(a);
+        }
+        for a in &firsts {
+            let ha = eval(a);
+            std::hint::black_box(ha.power_index());
+            if mode == Mode::Category {
+                std::hint::black_box(ha.hand_type());
+            }
+        }
+        // fillers: a fixed cycle of eight hands
+        let fill: Vec<[Cid; 7]> = (0..8u8)
+            .map(|j| {
+                let mut f = [0u8; 7];
+                for (i, x) in f.iter_mut().enumerate() {
+                    *x = (j * 6 + i as u8 * 7 + 3) % 52;
+                }
+                f
+            })
+            .collect();
+        for i in 0..c.fillers {
+            let h = eval(&fill[i as usize & 7]);
+            std::hint::black_box(h.power_index());
+            if mode == Mode::Category {
+                std::hint::black_box(h.hand_type());
+            }
+        }
+        let mut cats = 0u64;
+        for j in 0..firsts.len() {
+            let a = &firsts[j];
+            let b = related_hand(a, c.hands[j].1);
+            let wb = t.class7(&b);
+            cats |= 1 << t.cat_of_class(wb);
+            let h = eval(&b);
+            let dist = c.fillers as usize + firsts.len();
+            match mode {
+                Mode::Index => vensure!(h.power_index() == wb, format!("index-after-history:{}", cnames(&b)), "cards {} evaluate to index {} when {} was evaluated {} calls earlier on the thread; the best five-card hand is {} (index {})", cnames(&b), h.power_index(), cnames(a), dist, t.describe(wb), wb),
+                Mode::Category => {
+                    let g = format!("{:?}", h.hand_type());
+                    let e = CAT_NAMES[t.cat_of_class(wb) as usize];
+                    vensure!(g == e, format!("category-after-history:{}:{}", wb, g), "cards {} report category {} when {} was asked {} calls earlier on the thread; the best five-card hand is {}", cnames(&b), g, cnames(a), dist, t.describe(wb));
+                }
+            }
+        }
+        let cls = cats | if c.fillers >= 16_000_000 { 1 << 12 } else if c.fillers >= 60_000 { 1 << 11 } else { 1 << 10 };
+        Ok(Outcome::new(true, fp_of(&format!("{:?}", c)), cls))
+    }
+}
+const LONG_HISTORY_CLASSES: &[&str] = &["HighCard", "Pair", "TwoPair", "Trips", "Straight", "Flush", "FullHouse", "Quads", "StraightFlush", "-", "history_around_256_calls", "history_around_65536_calls", "history_around_2_24_calls"];
+
+pub fn long_history_strategy() -> impl Strategy<Value = LongHistory> {
+    (proptest::collection::vec((set_strategy(), any::<u8>()), 40), prop_oneof![4 => Just(256u32), 2 => Just(65_536u32), 1 => Just(16_777_216u32)], 0u32..5).prop_map(|(hands, base, off)| LongHistory { hands, fillers: base - 40 - 2 + off })
+}
+
 const HISTORY_CLASSES: &[&str] = &["HighCard", "Pair", "TwoPair", "Trips", "Straight", "Flush", "FullHouse", "Quads", "StraightFlush", "previous_call_other_category"];
 
 // ---------------------------------------------------------------------------------------------
@@ -800,10 +921,10 @@ pub fn run(ctx: &mut Ctx, mode: Mode) {
     let brief = |v: &Vec<u8>| json!(cnames(v));
     match mode {
         Mode::Index => {
-            ctx.rule = "sets: every 7-card rank multiset (all 49,205 no-flush table slots) in 3 flush-free suit layouts, every 5/6/7-bit suit mask (all 4,719 flush slots) in each suit with 2 fills, proptest category-targeted + uniform sets; each set is evaluated ascending, descending, (if a suit has >=5 cards) suited-first / suited-last / 4 suited-offsuit-rest orders and seeded shuffles; a sample of sets in all 5,040 orders; pairs of hands sharing a board (mirrored hole cards for ties) compared with ==,<,partial_cmp,cmp; all C(52,7) = 133,784,560 sets in both tiers (1 seeded shuffle quick, 12 thorough). Oracle: class of the best of the 21 five-card subsets under a from-the-rules classifier (self-checked: 7,462 classes, per-category counts). Every case is non-trivial; distinct = distinct sets (pairs: distinct pairs).".into();
+            ctx.rule = "sets: every 7-card rank multiset (all 49,205 no-flush table slots) in 3 flush-free suit layouts, every 5/6/7-bit suit mask (all 4,719 flush slots) in each suit with 2 fills, proptest category-targeted + uniform sets; each set is evaluated ascending, descending, (if a suit has >=5 cards) suited-first / suited-last / 4 suited-offsuit-rest orders and seeded shuffles; a sample of sets in all 5,040 orders; pairs of hands sharing a board (mirrored hole cards for ties) compared with ==,<,partial_cmp,cmp; all C(52,7) = 133,784,560 sets in both tiers (1 seeded shuffle quick, 12 thorough); long call histories on one thread (forty hands, then d-40 other hands, then one related hand for each of the forty - reversed order, one card replaced, suits rotated, same ranks in flush-free suits - all forty related pairs exactly d calls apart, d within 2 of 256 / 65,536 / 2^24). Oracle: class of the best of the 21 five-card subsets under a from-the-rules classifier (self-checked: 7,462 classes, per-category counts). Every case is non-trivial; distinct = distinct sets (pairs: distinct pairs).".into();
         }
         Mode::Category => {
-            ctx.rule = "same set generators as C01 (slot-complete enumeration, flush masks, targeted random sets, all C(52,7) sets) plus the strongest and weakest hand of every category embedded in 7 cards; call histories: for one representative of each of the 4,824 reachable power indexes, hand_type() right after a hand_type() call for the strongest / weakest reachable hand of every category (every (previous category boundary, current index) pair); oracle: Debug name of hand_type() == category of the reference class of the best five-card hand. Every case non-trivial; distinct = distinct sets.".into();
+            ctx.rule = "same set generators as C01 (slot-complete enumeration, flush masks, targeted random sets, all C(52,7) sets) plus the strongest and weakest hand of every category embedded in 7 cards; call histories: for one representative of each of the 4,824 reachable power indexes, hand_type() right after a hand_type() call for the strongest / weakest reachable hand of every category (every (previous category boundary, current index) pair); long histories (forty hands, d-40 other hands, then one related hand for each of the forty, d within 2 of 256 / 65,536 / 2^24); oracle: Debug name of hand_type() == category of the reference class of the best five-card hand. Every case non-trivial; distinct = distinct sets.".into();
         }
     }
     ctx.assumptions = vec![
@@ -884,6 +1005,9 @@ pub fn run(ctx: &mut Ctx, mode: Mode) {
         ctx.require_class("hand_pairs", "tie", cases / 100);
         ctx.require_class("hand_pairs", "shared_board", cases / 4);
     }
+    // long call histories on one thread (wrap points of 8-, 16- and 24-bit call counters)
+    let cases = tier.pick(160, 2_000);
+    ctx.run_random_brief(StreamCfg::new("long_call_histories", LONG_HISTORY_CLASSES, cases).shrink(20), long_history_strategy, check_long_history(mode), |c| json!({"first_of_40": cnames(&c.hands[0].0), "fillers": c.fillers}));
     // (f) everything
     run_all_sets(ctx, mode, tier.pick(1, 12));
     ctx.exhaustive = !ctx.failed() && env_scale() >= 1.0;
@@ -896,6 +1020,7 @@ pub fn replay(mode: Mode, stream: &str, path: &str, case: &Value) -> i32 {
         "hand_pairs" => replay_case::<PairCase>(prop, path, case, check_pair),
         "call_histories" => replay_case::<(Vec<u8>, Vec<u8>)>(prop, path, case, check_history),
         "all_5040_orders" => replay_case::<Vec<u8>>(prop, path, case, check_all_orders),
+        "long_call_histories" => replay_case::<LongHistory>(prop, path, case, check_long_history(mode)),
         _ => replay_case::<Vec<u8>>(prop, path, case, check_set_case(mode, 3)),
     }
 }
